@@ -59,6 +59,21 @@ func VerifActiveNames(r *Adaptation) []string {
 	return out
 }
 
+// VerifPluginStates lists the plugin table as it is (nothing is reaped): name and whether the
+// plugin's connection is known to be closed.
+func VerifPluginStates(r *Adaptation) (open, closed []string) {
+	r.Lock()
+	defer r.Unlock()
+	for _, p := range r.plugins {
+		if p.isClosed() {
+			closed = append(closed, p.name())
+		} else {
+			open = append(open, p.name())
+		}
+	}
+	return
+}
+
 func (vp *VerifPlugin) Name() string          { return vp.p.name() }
 func (vp *VerifPlugin) IsClosed() bool        { return vp.p.isClosed() }
 func (vp *VerifPlugin) Events() api.EventMask { return vp.p.events }
